@@ -2,9 +2,15 @@ import Driver.Proto
 import Relsad.Model.Graph
 import Relsad.Model.Islands
 import Relsad.Model.Sections
+import Relsad.Model.Relrad
 
 namespace Driver
-open Relsad.Graph Relsad.Islands Relsad.Sections
+open Relsad.Graph Relsad.Islands Relsad.Sections Relsad.Relrad
+
+def parseRLine? (s : String) : Option RLine :=
+  match s.splitOn ":" with
+  | [a, b, k, n] => do some { a := ← a.toNat?, b := ← b.toNat?, sec := ← k.toNat?, net := ← n.toNat? }
+  | _ => none
 
 def parseEdge? (s : String) : Option Edge :=
   match s.splitOn "-" with
@@ -43,6 +49,12 @@ def opsGraph (args : List String) : Option String :=
       let V ← parseList? parseNat? vs; let E ← parseList? parseEdge? es; let B ← parseList? parseBackup? bs
       let (E', closed) := closeBackups V B.length E B
       some s!"{showComps (components V E')} {closed.length} {showBool (isForest V E')}"
+  | ["relrad", vs, ls, bs, feed, k, knet, bnets] => do
+      let V ← parseList? parseNat? vs; let L ← parseList? parseRLine? ls; let B ← parseList? parseEdge? bs
+      let bn ← parseList? parseNat? bnets
+      let feed ← feed.toNat?; let k ← k.toNat?; let knet ← knet.toNat?
+      some (showList (fun (c : Class) => match c with | .unaffected => "u" | .sectioningOnly => "s" | .untilRepair => "r")
+        ((V.zip bn).map (fun (b, n) => classify V L B feed k knet b n)))
   | ["sections", ls] => do
       let L ← parseList? parseLineSpec? ls
       some (showList (fun (p : Nat × Bool) => s!"{p.1}{if p.2 then "s" else "m"}") (secIds L))
